@@ -19,7 +19,7 @@ pub fn run(rep: &mut Report, tier: &str, seed: u64) {
     let (n_programs, max_k) = if tier == "thorough" { (400, 100000) } else { (40, 400) };
     let mut runner = Runner::new("C11");
     campaign(rep, &mut runner, seed, n_programs, 1, true,
-        &|pi, r| Opts { fragment: false, fault_pct: if pi % 4 == 3 { 100 } else { 0 }, max_stanzas: 3, allow_print: true, universal: r.chance(1, 3), probe: false, scoped_heavy: false, keywordish_names: false },
+        &|pi, r| Opts { fragment: false, fault_pct: if pi % 4 == 3 { 100 } else { 0 }, max_stanzas: 3, allow_print: true, universal: r.chance(1, 3), probe: false, scoped_heavy: false, keywordish_names: false, static_fault: 0 },
         &mut |rep, runner, case, r, _pi| {
             let globals = crate::props::common::supply_globals(r, &case.loaded.program);
             for lazy in [false, true] {
